@@ -298,6 +298,7 @@ type Scenario struct {
 	Scripts  []Script     `json:"scripts"`
 	Clients  []Client     `json:"clients"`
 	NoProbes bool         `json:"no_probes,omitempty"`
+	Adapter  *AdapterSpec `json:"adapter,omitempty"` // HTTP / gRPC adapter scenario (no generic clients)
 	Note     string       `json:"note,omitempty"`
 }
 
